@@ -308,6 +308,25 @@ func (f *freshness) compute(v ssa.Value) bool {
 	case *ssa.Field:
 		return f.notFresh(v, "field of "+typeShort(x.X.Type()))
 	case *ssa.Lookup:
+		// an entry of a map made in this activation that is only looked up and
+		// updated here holds what this activation stored: fresh if every stored value is
+		if mm, ok := x.X.(*ssa.MakeMap); ok && mm.Referrers() != nil {
+			local := true
+			for _, ref := range *mm.Referrers() {
+				switch y := ref.(type) {
+				case *ssa.Lookup, *ssa.DebugRef, *ssa.Range:
+				case *ssa.MapUpdate:
+					if y.Map != ssa.Value(mm) || !f.isFresh(y.Value) {
+						local = false
+					}
+				default:
+					local = false
+				}
+			}
+			if local {
+				return true
+			}
+		}
 		return f.notFresh(v, "map lookup")
 	case *ssa.TypeAssert:
 		return f.notFresh(v, "type assertion of "+x.X.Name())
